@@ -158,6 +158,17 @@ fn main() {
     let mut bump = |k: &str| *dist.entry(k.to_string()).or_insert(0) += 1;
     match suite {
         "reader" => for s in gen_strings(&mut rng, count, &alpha) { let c = reader_case(&s); bump(if c.contains(" VOk ") { "accepted" } else if c.contains(" VEol ") { "eol" } else { "char" }); bump(&format!("len{}", (s.chars().count() / 8) * 8)); cases.push(c) },
+        "reader_exh" => { // every string of length <= 4 over a 12-symbol sub-alphabet (thorough tier)
+            let sub: Vec<char> = "Cc1().=[]%@H".chars().collect();
+            let mut level: Vec<String> = vec![String::new()];
+            cases.push(reader_case(""));
+            for _ in 0..4 { let mut next = vec![]; for p in &level { for c in &sub { let mut q = p.clone(); q.push(*c); cases.push(reader_case(&q)); next.push(q) } } level = next; if cases.len() >= count { break } }
+            bump("exhaustive") },
+        "pool_exh" => { // every hit sequence of length <= 5 over four atom pairs in both orientations
+            let opts: Vec<(usize, usize)> = vec![(0, 1), (1, 0), (0, 2), (2, 0), (1, 2), (2, 1), (3, 4), (4, 3)];
+            let mut level: Vec<Vec<(usize, usize)>> = vec![vec![]];
+            for _ in 0..5 { let mut next = vec![]; for p in &level { for o in &opts { let mut q = p.clone(); q.push(*o); cases.push(pool_case(&q)); next.push(q) } } level = next }
+            bump("exhaustive") },
         "walk" => {
             // corpus: witnesses of past findings
             let star = |b: Vec<(BondKind, usize)>| Atom { kind: AtomKind::Star, bonds: b.into_iter().map(|(k, t)| Bond::new(k, t)).collect() };
@@ -202,7 +213,7 @@ fn main() {
         writeln!(f, "(* GENERATED by corr {} (seed from VERIF_SEED): implementation outputs on generated inputs *)", suite).unwrap();
         writeln!(f, "From Coq Require Import List NArith String.\nImport ListNotations.\nRequire Import P.Generated.Enums P.Spec.Values P.Model.Base P.Model.Reader P.Model.Walk P.Model.Builder P.Model.Token P.Corr.CorrLib.\nLocal Open Scope string_scope.").unwrap();
         writeln!(f, "Definition cases := [\n  {}\n].", chunk.join(";\n  ")).unwrap();
-        writeln!(f, "Eval vm_compute in run_{}_suite cases.", suite).unwrap();
+        writeln!(f, "Eval vm_compute in run_{}_suite cases.", suite.trim_end_matches("_exh")).unwrap();
         std::fs::write(format!("{}/cases_{}_{}.v", outdir, suite, i), f).unwrap();
     }
     println!("{{\"suite\": \"{}\", \"cases\": {}, \"distribution\": {{{}}}, \"sample\": {:?}}}", suite, cases.len(), dist.iter().map(|(k, v)| format!("\"{}\": {}", k, v)).collect::<Vec<_>>().join(", "), cases.get(cases.len() / 2).map(|s| s.chars().take(300).collect::<String>()).unwrap_or_default());
